@@ -30,7 +30,7 @@ MC_INV = [
     "GridTotal", "ConsumerTotal", "ProducerTotal", "BatteryTotal", "PVTotal", "PVDfsTotal", "EVTotal", "CHPTotal",
     "Generated", "FallbackEqualsPrimary", "Balance",
     "NoDeviation", "LegacyWrongIffCause", "LegacyBalanceWrongIffCause", "RepairOnlyWhereCause", "ChpDevIsTight",
-    "PVTwoWaysAgree", "TruthBalances",
+    "PVTwoWaysAgree", "TruthBalances", "SharedBatDevIsTight", "OwnWiringHasNoSharedCause",
 ]
 ACTIONS = [
     "ChooseTopology", "GenGridStep", "GenConsumerStep", "GenProducerStep", "GenBatteryStep",
@@ -38,18 +38,22 @@ ACTIONS = [
 ]
 
 # stage = (name, constants, replay limit or None, expect RejectTopology)
-ANY = dict(Shape="any", ShapeCats=set())
+ANY = dict(Shape="any", ShapeCats=set(), BatWiring="own")
+# every wiring of battery inverters to batteries (shared batteries, several batteries per inverter) except the own one
+WIRED = dict(Shape="wired", ShapeCats=set(), BatWiring="any", CandN=0, ShardK=1, ShardI=0)
 SCOPES = {
     "quick": [
         ("n2to5", dict(MinN=2, MaxN=5, CandN=4, ShardK=1, ShardI=0, **ANY), None, True),
         # targeted: no grid meter, nodes 2 and 3 meters, >= 2 consumer meters with device chains below (first at n = 8)
-        ("n8twomixed", dict(MinN=8, MaxN=8, CandN=0, ShardK=1, ShardI=0, Shape="twomixed", ShapeCats={"PVINV", "BATINV", "METER"}), 6000, False),
+        ("n8twomixed", dict(MinN=8, MaxN=8, CandN=0, ShardK=1, ShardI=0, BatWiring="own", Shape="twomixed", ShapeCats={"PVINV", "BATINV", "METER"}), 6000, False),
+        ("n2to4wired", dict(MinN=2, MaxN=4, **WIRED), None, False),
     ],
     "thorough": [
         ("n2to6", dict(MinN=2, MaxN=6, CandN=5, ShardK=1, ShardI=0, **ANY), None, True),
         # one seeded shard (1/12 of the category vectors) of n = 7, sub-sampled
         ("n7shard", dict(MinN=7, MaxN=7, CandN=0, ShardK=12, ShardI=SEED % 12, **ANY), 30000, False),
-        ("n8twomixed", dict(MinN=8, MaxN=8, CandN=0, ShardK=1, ShardI=0, Shape="twomixed", ShapeCats={"PVINV", "BATINV", "EV", "CHP", "METER"}), 40000, False),
+        ("n8twomixed", dict(MinN=8, MaxN=8, CandN=0, ShardK=1, ShardI=0, BatWiring="own", Shape="twomixed", ShapeCats={"PVINV", "BATINV", "EV", "CHP", "METER"}), 40000, False),
+        ("n2to5wired", dict(MinN=2, MaxN=5, **WIRED), 40000, False),
     ],
 }
 
@@ -91,8 +95,10 @@ class Real:
         self.sender = Broadcast(name="verif-resampler-requests").new_sender()
 
     # -- graph ---------------------------------------------------------------
-    def build(self, cat: list[str], parent: list[int]):
+    def build(self, cat: list[str], parent: list[int], wire: list[list[int]] | None = None):
         comps, conns = set(), set()
+        if wire is None:  # candidates outside the premise: one own battery per battery inverter
+            wire = [[i] if c == "BATINV" else [] for i, c in enumerate(cat, start=1)]
         for i, c in enumerate(cat, start=1):
             if c == "GRID":
                 comps.add(self.Component(i, self.CC.GRID))
@@ -100,8 +106,9 @@ class Real:
                 comps.add(self.Component(i, self.CC.METER))
             elif c == "BATINV":
                 comps.add(self.Component(i, self.CC.INVERTER, self.IT.BATTERY))
-                comps.add(self.Component(BAT_OFFSET + i, self.CC.BATTERY))
-                conns.add(self.Connection(i, BAT_OFFSET + i))
+                for b in wire[i - 1]:
+                    comps.add(self.Component(BAT_OFFSET + b, self.CC.BATTERY))
+                    conns.add(self.Connection(i, BAT_OFFSET + b))
             elif c == "PVINV":
                 comps.add(self.Component(i, self.CC.INVERTER, self.IT.SOLAR))
             elif c == "EV":
@@ -172,8 +179,10 @@ class Real:
 
     def run(self, case: dict) -> dict:
         n, cat, parent = case["n"], case["cat"], case["parent"]
-        graph = self.build(cat, parent)
+        graph = self.build(cat, parent, case.get("wire"))
         rec = dict(id=case["id"], kind=case["k"], n=n, cat=cat, parent=parent, accepted=graph is not None)
+        if "wire" in case:
+            rec["wire"] = case["wire"]
         if case["k"] != "graph":
             return rec
         rec["calls"] = []
@@ -239,7 +248,7 @@ def _stage(rep: Report, prop: str, name: str, consts: dict, limit, expect_reject
         if not res.coverage.get(a):
             raise RuntimeError(f"vacuity: action {a} never taken in {name} ({res.coverage})")
     raw = read_emitted(cases_file)
-    raw.sort(key=lambda c: (c["n"], c["k"], c["cat"], c["parent"]))
+    raw.sort(key=lambda c: (c["n"], c["k"], c["cat"], c["parent"], c.get("wire", [])))
     cases = [dict(c, id=i + 1) for i, c in enumerate(raw)]
     graphs = [c for c in cases if c["k"] == "graph"]
     mc_flags: dict = {}
@@ -253,7 +262,7 @@ def _stage(rep: Report, prop: str, name: str, consts: dict, limit, expect_reject
     shards = replay_parallel(_worker, cases, d)
     fails, done, st = validate_shards(
         "GraphFormulasTrace", shards, d,
-        constants=dict(MinN=2, MaxN=9, CandN=99, ShardK=1, ShardI=0, **ANY), timeout=timeout,
+        constants=dict(MinN=2, MaxN=9, CandN=99, ShardK=1, ShardI=0, Shape="any", ShapeCats=set(), BatWiring="any"), timeout=timeout,
     )
     rep.validated += done
     # what the validated records exercised (written by TLC with every consumed trace)
@@ -271,7 +280,9 @@ def _stage(rep: Report, prop: str, name: str, consts: dict, limit, expect_reject
              model_antecedents=mc_flags, exercised_by_real_records=ex)
     )
     # vacuity: antecedents that depend on the graph only (the code under test cannot empty them)
-    if consts["Shape"] == "twomixed":
+    if consts["Shape"] == "wired":
+        need = ["graph", "shared_battery", "multi_battery_inverter", "shared_battery_fallback", "real_fallbacks", "load", "nested"]
+    elif consts["Shape"] == "twomixed":
         need = ["graph", "dev", "load", "no_grid_meter_and_two_mixed_meters_with_device_chains"]
     else:
         need = ["graph", "with_grid_meter", "without_grid_meter", "chp_without_dedicated_meter", "chp_with_dedicated_meter",
@@ -307,7 +318,7 @@ def _stage(rep: Report, prop: str, name: str, consts: dict, limit, expect_reject
                 for r_ in load_ndjson(p):
                     byid[r_["id"]] = r_
         r_ = byid.get(v["tid"], {})
-        case = dict(stage=name, n=r_.get("n"), cat=r_.get("cat"), parent=r_.get("parent"),
+        case = dict(stage=name, n=r_.get("n"), cat=r_.get("cat"), parent=r_.get("parent"), wire=r_.get("wire"),
                     formulas={c["name"]: (c["s"] if c["ok"] else "raised " + c["err"]) for c in r_.get("calls", [])})
         rep.fail(v["clause"], case, v["detail"], deviations=v.get("deviations") or [])
     for r_ in (load_ndjson(shards[-1])[-2:] if shards else []):
@@ -323,7 +334,9 @@ def run(prop: str, tier: str) -> int:
     work = scratch(f"{prop}_{tier}")
     rep.assumptions = [
         "graphs are trees: node 1 = grid, parent[i] < i, only the grid and meters have successors, CHPs hang below a meter, "
-        "one battery per battery inverter; no hybrid inverters, no component with two predecessors",
+        "no hybrid inverters; one own battery per battery inverter in the tree stages; the 'wired' stages enumerate every "
+        "wiring of the battery inverters to battery slots (a battery fed by several inverters, an inverter feeding several "
+        "batteries) -- batteries are the only components with two predecessors",
         "a meter is 'dedicated to one device type' when all its successors are devices of one type AND it is not the grid "
         "meter (the only grid successor); every other meter, and always the grid meter, carries an unmetered-load variable",
         "a fallback attached to a term with an own unmetered-load variable (the grid meter above devices of one type) must "
